@@ -468,3 +468,30 @@ Lemma row_cells_nth w r x : x < line_length w r -> nth_error (row_cells w r) x =
 Proof.
   intro H. unfold row_cells. apply map_nth_error. rewrite nth_error_seq by exact H. reflexivity.
 Qed.
+
+(* layer height after the abstract loader: every printed row raises it *)
+Lemma lay_lh w h rows : 0 < w ->
+  forall p y0, h = y0 + length rows -> rows <> [] -> Forall (fun r => length r <= w) rows -> last rows [] <> [] ->
+  px p = 0 -> py p = y0 -> h <= lh (lay w h p rows y0).
+Proof.
+  intro Hw. induction rows as [|r rest IH]; intros p y0 Hh Hne Hlen Hlast Hpx Hpy; [congruence|].
+  cbn [lay]. cbn [length] in Hh. inversion Hlen as [|? ? Hr Hrest]; subst.
+  assert (Hx0 : px p < w) by lia.
+  assert (Hl0 : px p + length r <= w) by lia.
+  destruct (puts_spec w p r Hx0 Hl0) as (_ & Hpos & Hlh).
+  destruct rest as [|r2 rest'].
+  - cbn [last] in Hlast. cbn [lay length].
+    replace (S (py p) <? py p + 1) with false by (symmetry; apply Nat.ltb_ge; lia). rewrite andb_false_r.
+    rewrite Hlh. destruct r; [congruence|lia].
+  - set (rest := r2 :: rest') in *.
+    assert (Hc : S (py p) <? py p + S (length rest) = true) by (apply Nat.ltb_lt; unfold rest; cbn [length]; lia).
+    rewrite Hc, andb_true_r.
+    set (p1 := puts w p r) in *.
+    set (p2 := if length r <? w then lf p1 else p1).
+    assert (H2 : px p2 = 0 /\ py p2 = S (py p)).
+    { unfold p2. destruct (Nat.ltb_spec (length r) w) as [Hlt|Hge].
+      - unfold lf. cbn [px py]. destruct Hpos as [(_ & _ & Hy)|(Hcc & _ & _ & Hy)]; lia.
+      - destruct Hpos as [(A & _)|(_ & _ & B & C)]; lia. }
+    destruct H2 as (Hpx2 & Hpy2).
+    exact (IH p2 (S (py p)) ltac:(lia) ltac:(discriminate) Hrest Hlast Hpx2 Hpy2).
+Qed.
